@@ -226,6 +226,30 @@ func Run(cfg Config) (int, error) {
 		}
 	}
 	body := fmt.Sprintf(`{"epoch_id":"%s","block_number":5}`, epoch)
+	// servers built in the other order in the same process (write-enabled first, then read-only): what one server
+	// allows must not depend on servers built before it
+	{
+		wFirst := newServer(true)
+		roSecond := newServer(false)
+		for _, c := range []struct{ m, t, b string }{{"POST", "/v1/shutdown", ""}, {"POST", "/v1/decryptionTrigger", body}} {
+			o, err := roSecond.do(c.m, c.t, c.b)
+			res.Count("construction-order-checks")
+			if err == nil && (o.Reached == "shutdown" || o.Reached == "trigger") {
+				violate("spec", "write-op-reached", fmt.Sprintf("write operations disabled but %s %s reached the %s operation on a server built after a write-enabled one in the same process", c.m, c.t, o.Reached), map[string]string{"method": c.m, "target": c.t, "construction_order": "write-enabled server first, read-only server second"})
+			}
+		}
+		for _, c := range []struct{ m, t, want string }{{"GET", "/v1/ping", "ping"}, {"GET", "/v1/eons", "db-handler"}} {
+			for _, sv := range []*server{wFirst, roSecond} {
+				o, err := sv.do(c.m, c.t, "")
+				if err != nil || o.Reached != c.want {
+					violate("spec", "readonly-unreachable", fmt.Sprintf("read-only operation not reachable on servers built write-enabled first: %s %s -> %+v", c.m, c.t, o), nil)
+				}
+			}
+		}
+		if o, err := wFirst.do("POST", "/v1/decryptionTrigger", body); err == nil && o.Reached != "trigger" && o.Status == 403 {
+			violate("spec", "not-deterministic", fmt.Sprintf("a write-enabled server refuses POST /v1/decryptionTrigger (%+v) depending on the servers built in the process", o), nil)
+		}
+	}
 	for i := 0; i < n && len(res.Violations) == 0; i++ {
 		w := r.Bool()
 		ui := r.Chance(30)
